@@ -1,0 +1,9 @@
+//go:build verif
+
+package service
+
+// VerifC15StoredLabels is the unexported decoder of stored label documents used by
+// QueryLabelsService.Series (storedLabels).
+func VerifC15StoredLabels(doc string) (map[string]string, error) {
+	return storedLabels(doc)
+}
